@@ -315,6 +315,22 @@ type cfg struct {
 	name string
 	w, h int
 	ops  []op
+	// pre is child output processed before the explored path: the search starts from a
+	// non-initial state (alternate screen with a saved cursor in the far corner, a scroll region, ...)
+	pre string
+}
+
+// parse turns child output into sequences (retained: never handed back to the parser).
+func parse(b string) []ansi.Sequence {
+	var out []ansi.Sequence
+	p := ansi.NewParser(strings.NewReader(b))
+	for seq := range p.Next() {
+		if _, ok := seq.(ansi.EOF); ok {
+			break
+		}
+		out = append(out, seq)
+	}
+	return out
 }
 
 func describe(s term.VerifSnap) string {
@@ -378,8 +394,14 @@ func applyOp(m *term.Model, o op, attached *bool) (why string, clause string) {
 
 func runPath(c *cfg, path []uint16) (uint64, explore.Status) {
 	m := term.VerifNew(nil, c.w, c.h)
+	for _, seq := range parse(c.pre) {
+		m.VerifFeed(seq)
+	}
 	attached := false
 	var names []string
+	if c.pre != "" {
+		names = append(names, fmt.Sprintf("(start state: child wrote %q)", c.pre))
+	}
 	for i, oi := range path {
 		o := c.ops[oi]
 		last := i == len(path)-1
@@ -452,6 +474,10 @@ func main() {
 		{name: "2x2", w: 2, h: 2, ops: buildOps(3, 3)},
 		{name: "3x3", w: 3, h: 3, ops: buildOps(3, 3)},
 		{name: "1x1", w: 1, h: 1, ops: buildOps(2, 2)},
+		// non-initial start states
+		{name: "3x3-alt-saved-corner", w: 3, h: 3, ops: buildOps(3, 3), pre: "\x1b[?1049h\x1b[3;3H\x1b7"},
+		{name: "3x3-saved-corner-region", w: 3, h: 3, ops: buildOps(3, 3), pre: "ab\x1b[2;3r\x1b[3;3H\x1b7\x1b[?6h"},
+		{name: "2x2-full-wide-pending", w: 2, h: 2, ops: buildOps(3, 3), pre: "\u4e16\r\nab"},
 	}
 	byName := map[string]*cfg{}
 	for _, c := range cfgs {
@@ -487,7 +513,7 @@ func main() {
 	}
 	r.Finish(explore.Coverage{
 		States: states, Transitions: trans, Traces: trans, Evaluations: trans,
-		Rule:       "explicit-state BFS on the real term.Model from 2x2, 3x3 and 1x1: alphabet of ~330 operations (print narrow/wide/zero-width, C0, ESC functions, every CSI function of csi.go with parameters omitted/0/1/2/size-1/size/size+1/2^31-1 (the parser's saturation value), modes, SGR incl. truncated extended colours, OSC, APC, DCS, Resize over {1,2,3}^2, Draw into host windows, event-raising sequences with and without the consumer draining); successor = replay of the operation path on a fresh Model; state key = abstraction (cell class blank/narrow/wide + wrapped flag, cursor, pending wrap, margins, modes, tab stops <= width+1, saved cursors, pen default-or-not, queued events, host attached); a state that violates an invariant or panics is reported and not expanded",
+		Rule:       "explicit-state BFS on the real term.Model from 2x2, 3x3 and 1x1 and from three non-initial start states (3x3 alternate screen with the cursor saved in the far corner; 3x3 scroll region + origin mode + saved corner cursor; 2x2 filled with a wide glyph and a pending wrap): alphabet of ~330 operations (print narrow/wide/zero-width, C0, ESC functions, every CSI function of csi.go with parameters omitted/0/1/2/size-1/size/size+1/2^31-1 (the parser's saturation value), modes, SGR incl. truncated extended colours, OSC, APC, DCS, Resize over {1,2,3}^2, Draw into host windows, event-raising sequences with and without the consumer draining); successor = replay of the operation path on a fresh Model; state key = abstraction (cell class blank/narrow/wide + wrapped flag, cursor, pending wrap, margins, modes, tab stops <= width+1, saved cursors, pen default-or-not, queued events, host attached); a state that violates an invariant or panics is reported and not expanded",
 		Exhaustive: exhaustive,
 		Bounds:     bounds,
 		Assumptions: []string{"sequences are fed as parsed ansi.Sequence values (the byte-level parser is C02's subject, including that parameters saturate at 2^31-1 and are never negative)",
